@@ -16,7 +16,16 @@ CFG = PropCfg(
      # server configuration -> policy: the TOML loader and NewHopServer, with real clients over loopback UDP
      SuiteCfg("C01cfg", stateless=True, parts_thorough=4, nontrivial=lambda ops, outs: True, timeout=1500,
               classify=lambda op, out: op.split(" ")[0] + " -> " + out)],
-    rule="suite C01cfg: a real hopserver.NewHopServer per line, configured through a TOML file read by "
+    extra_modules=["HopModel.Props.C01ClientCfg", "HopModel.Props.C20ClientCfg"],
+    rule="suite C01cfg, op cli (the client's side of the configuration glue): a client configuration with a [Global] block, a "
+         "host block that does not match (and would switch verification off) and a matching host block, as a TOML file "
+         "through config.LoadClientConfigFromFile or as structs, goes through ClientConfig.MatchHost, Unwrap and "
+         "hopclient's authenticatorSetup; a real hopclient.HopClient dials a real transport.Server over loopback UDP "
+         "(discoverable or hidden) that presents one of four certificates (two name sets under the trusted root, a foreign "
+         "root, self-signed): 11 ways of setting ServerName/ServerIPv4/ServerIPv6 in the two blocks x CAFiles in "
+         "{own, other, none, split over both blocks} x InsecureSkipVerify absent/true/false in each block; Dial's result "
+         "is compared with ClientCfg.accepts on the merged configuration (found F36, F37). "
+         "suite C01cfg, ops cfg/hid/sni: a real hopserver.NewHopServer per line, configured through a TOML file read by "
          "config.LoadServerConfigFromFile or through a ServerConfig struct, for every combination of InsecureSkipVerify / "
          "DisableCertificateValidation / EnableAuthorizedKeys / EnableAuthgrants (absent, true, false), CA file listed or "
          "not, a CA-issued / self-signed / foreign-root client, a grant added for its key or not; a real client connects "
@@ -42,7 +51,10 @@ MANIFEST = {
             "policy accepted the certificates and the sender proved possession), C01_server_clientauth, "
             "C01_server_publish_discoverable/_hidden (policy attached on both paths, connection offered only after the "
             "reader succeeded, hidden-mode keys derived after DH(ss)), C01_policy_cases (the policy decision stated "
-            "outright, for all configurations). Possession-from-MAC is the Noise assumption (hypothesis level). Tied "
+            "outright, for all configurations); C01_client_cfg_accepts_iff, C01_effective_skip/_names/_cas, "
+            "C01_verification_demanded, C01_expected_name (unbounded, over every Global block and list of applied host "
+            "blocks: which name the client expects, which roots it trusts and when it skips verification; a host block "
+            "that demands verification gets it). Possession-from-MAC is the Noise assumption (hypothesis level). Tied "
             "additionally by real handshakes with dishonest counterparts compared scenario by scenario.",
     "design_ref": "DESIGN.md 5.1",
     "note": "Trusted: Lean kernel (decide +kernel, no native_decide); translator harness/extract/structural.go; the "
